@@ -75,6 +75,10 @@ def diagnose(fam, kind, op, args, hostile, oc, op_, stage, extra=None):
         if (hostile and hostile[0] == 'key' and fam.kc in INT_RANGES) or \
                 (hostile and hostile[0] == 'value' and fam.vc in 'IULQF'):
             return 'F15'
+    # F35: C skips a store of an equal value (0.0 over -0.0 and vice versa)
+    if fam.vc == 'F' and stage == 'pickle' and extra and \
+            extra.get('zero_sign_only'):
+        return 'F35'
     # F08: Python keeps doubles
     if fam.vc == 'F' and stage in ('result', 'contents', 'pickle') and \
             extra and extra.get('f32_equal'):
@@ -412,9 +416,11 @@ def run_history(fam, kind, rng, rec, h, pal):
                 # objects are not) - both must fail alike
                 continue
             if dc != dp:
-                from .c06 import dumps_nomemo
+                from .c06 import dumps_nomemo, differ_only_in_zero_sign
                 extra = dict(iand_seen=iand_seen,
-                             memo_only=dumps_nomemo(c, 3) == dumps_nomemo(p, 3))
+                             memo_only=dumps_nomemo(c, 3) == dumps_nomemo(p, 3),
+                             zero_sign_only=differ_only_in_zero_sign(
+                                 dumps_nomemo(c, 3), dumps_nomemo(p, 3)))
                 tag = diagnose(fam, kind, op, ca, hostile, oc, opy, 'pickle',
                                extra)
                 a_, b_ = dumps_nomemo(c, 3), dumps_nomemo(p, 3)
